@@ -24,6 +24,7 @@ type Program struct {
 	ssaBy   map[string]*ssa.Package
 	LoadMS  int64
 	nested  map[types.Type]bool
+	arrayElems map[string]bool
 }
 
 func shimOverlay() string {
